@@ -3,9 +3,9 @@
 Evaluates the LIVE `MapPacket.Map` constructor and `MapPacket.apply_to_map_set` of the repo:
 
 * `freshMap`: what `MapPacket.Map(5)` looks like (id, scale, icons, width, height, number of
-  pixels, the non-zero pixels, is_tracking_position, is_locked);
-* `scenarios`: a handful of packet histories applied, in order and with no `try`, to an empty
-  `MapSet()`; recorded: the class name of the exception that ended the history (if any) and the map
+  pixels, the non-zero pixels as runs, is_tracking_position, is_locked);
+* `scenarios`: a handful of packet histories applied, in order and with no `try`, to a
+  `MapSet(...)` of zero or more pre-made maps `Map(id, width=w, height=h)`; recorded: the class name of the exception that ended the history (if any) and the map
   set as it then is (dict order; per map the fields and the non-zero pixels).  The histories include
   in-range patches, the exception path (IndexError / ZeroDivisionError on a fresh and on a known
   map) and the silently-wrapping cases (negative offset, row overflow, more pixels than
@@ -72,15 +72,32 @@ def _packet(p):
         _int(off[1]), _opt(px), _bool(p.is_tracking_position), _bool(p.is_locked))
 
 
+def _runs(px):
+    """maximal runs (start, count, value) of equal consecutive non-zero pixels"""
+    out = []
+    for i, b in enumerate(px):
+        if not b:
+            continue
+        if out and out[-1][0] + out[-1][1] == i and out[-1][2] == b:
+            out[-1] = (out[-1][0], out[-1][1] + 1, b)
+        else:
+            out.append((i, 1, b))
+    return out
+
+
 def _obs(key, m):
-    nz = [(i, b) for i, b in enumerate(bytes(m.pixels)) if b]
+    nz = _runs(bytes(m.pixels))
     return '(%s, %s, %s, %s, %d, %d, %d, [%s], %s, %s)' % (
         _int(key), _opt(m.id, _int), _opt(m.scale, _int), _icons(m.icons), m.width, m.height,
-        len(m.pixels), ', '.join('(%d, %d)' % t for t in nz), _bool(m.is_tracking_position),
+        len(m.pixels), ', '.join('(%d, %d, %d)' % t for t in nz), _bool(m.is_tracking_position),
         _bool(m.is_locked))
 
 
 def _scenarios(MP, ctx):
+    """(title, initial maps [(id, width, height)] built by Map(id, width=, height=), history).
+    Kernel evaluation of a 128*128 list costs seconds per traversal on the Lean side, so only two
+    scenarios create fresh (128x128) maps, with at most one pixel write; everything else runs on
+    small pre-made maps (`apply_to_map` never looks at the size except through `map.width`)."""
     Icon = MP.MapIcon
 
     def mk(map_id, scale=0, icons=(), width=0, height=0, off=None, px=None, tr=True, lk=False):
@@ -92,39 +109,45 @@ def _scenarios(MP, ctx):
         return p
 
     return [
-        ('two maps, overlapping patches, a pixel-less update', [
-            mk(3, 1, [Icon(1, 2, (3, -4), 'a'), Icon(0, 15, (-128, 127))], 3, 2, (5, 7),
-               [1, 2, 3, 4, 5, 6], False, True),
-            mk(9, -2, [], 2, 2, (126, 126), [10, 11, 12, 13]),
-            mk(3, 4, [], 2, 1, (6, 8), [7, 0], True, False),
-            mk(9, 5, [Icon(6, 7, (0, 0))], 0, 0, None, None, False, False),
-            mk(3, 4, [], 1, 3, (0, 0), [20, 21, 22]),
+        ('fresh 128x128 map: last cell written, then a pixel-less update; a known small map', [(9, 4, 3)], [
+            mk(3, 1, [Icon(1, 2, (3, -4), 'a'), Icon(0, 15, (-128, 127))], 1, 1, (127, 127), [13],
+               False, True),
+            mk(9, -2, [], 2, 2, (2, 1), [10, 11, 12, 13]),
+            mk(3, 4, [Icon(6, 7, (0, 0))], 0, 0, None, None, True, False),
         ]),
-        ('IndexError on a fresh map after one write', [
-            mk(7, 3, [Icon(1, 2, (3, 4))], 2, 2, (127, 127), [1, 2, 3, 4], False, True),
+        ('exception on a FRESH map (ZeroDivisionError: width 0 with pixels): the map stays', [], [
+            mk(7, 3, [Icon(1, 2, (3, 4))], 0, 0, (0, 0), [1], False, True),
             mk(8, 0, [], 1, 1, (0, 0), [9]),
         ]),
-        ('IndexError on a known map', [
+        ('overlapping patches and a pixel-less update on a known 8x8 map', [(3, 8, 8)], [
+            mk(3, 1, [], 3, 2, (5, 6), [1, 2, 3, 4, 5, 6], False, True),
+            mk(3, 4, [], 2, 1, (6, 7), [7, 0], True, False),
+            mk(3, 5, [Icon(6, 7, (0, 0))], 0, 0, None, None, False, False),
+            mk(3, 6, [], 1, 3, (0, 0), [20, 21, 22]),
+        ]),
+        ('IndexError on a known map after two writes: old flags kept', [(7, 4, 3)], [
             mk(7, 3, [], 1, 1, (0, 0), [5], False, True),
-            mk(7, 6, [Icon(2, 2, (2, 2))], 1, 3, (4, 126), [1, 2, 3], True, False),
+            mk(7, 6, [Icon(2, 2, (2, 2))], 1, 3, (3, 1), [1, 2, 3], True, False),
+            mk(7, 9, [], 1, 1, (0, 0), [9]),
         ]),
-        ('ZeroDivisionError: width 0 with pixels', [
-            mk(1, 0, [], 0, 0, (0, 0), [1]),
+        ('ZeroDivisionError on a known map', [(1, 4, 3)], [
+            mk(1, 2, [], 0, 0, (0, 0), [1], False, True),
         ]),
-        ('negative offset wraps to the end of the bytearray', [
+        ('negative offset wraps to the end of the bytearray', [(1, 4, 3)], [
             mk(1, 0, [], 2, 1, (-1, 0), [9, 8]),
         ]),
-        ('columns beyond 127 spill into the next row', [
-            mk(1, 0, [], 4, 1, (126, 0), [1, 2, 3, 4]),
+        ('columns beyond the map width spill into the next row', [(1, 4, 3)], [
+            mk(1, 0, [], 4, 1, (2, 0), [1, 2, 3, 4]),
         ]),
-        ('more pixels than width*height', [
+        ('more pixels than width*height', [(1, 4, 3)], [
             mk(1, 0, [], 2, 1, (0, 0), [1, 2, 3, 4]),
         ]),
-        ('offset far below zero: IndexError at once', [
+        ('offset far below zero: IndexError at the first write', [(2, 4, 3)], [
             mk(2, 1, [], 1, 1, (-128, -128), [1], False, True),
         ]),
-        ('empty pixel array, width 0', [
-            mk(4, 1, [], 0, 0, (0, 0), [], False, False),
+        ('empty pixel array, width 0; unknown id among known ones', [(4, 2, 2), (6, 2, 2)], [
+            mk(6, 1, [], 0, 0, (0, 0), [], False, False),
+            mk(4, 1, [], 1, 1, (1, 1), [3], False, False),
         ]),
     ]
 
@@ -136,21 +159,22 @@ def generate():
     fresh = MP.Map(5)
     out = []
     out.append('/- GENERATED by harness/gen/c20maps.py from the live code: `MapPacket.Map(5)` and a few\n'
-               '   packet histories run through `MapPacket.apply_to_map_set` on an empty `MapSet()`.\n'
+               '   packet histories run through `MapPacket.apply_to_map_set` on\n'
+               '   `MapSet(*[Map(id, width=w, height=h) ...])`.\n'
                '   Icon = (type, direction, x, z, display_name); Packet = (map_id, scale, icons, width,\n'
                '   height, offset x, offset z, pixels, is_tracking_position, is_locked); Obs = (dict key, id,\n'
-               '   scale, icons, width, height, len(pixels), non-zero pixels (index, value),\n'
-               '   is_tracking_position, is_locked); Scenario = (title, history, name of the exception that\n'
-               '   ended it, map set afterwards in dict order). -/\n')
+               '   scale, icons, width, height, len(pixels), non-zero pixels as maximal runs (start, count, value),\n'
+               '   is_tracking_position, is_locked); Scenario = (title, initial maps (id, width, height),\n'
+               '   history, name of the exception that ended it, map set afterwards in dict order). -/\n')
     out.append('namespace PyCraft.Gen.C20Maps\n\n')
     out.append('abbrev Icon := Int × Int × Int × Int × Option String\n')
     out.append('abbrev Packet := Int × Int × List Icon × Nat × Nat × Int × Int × Option (List Nat) × Bool × Bool\n')
-    out.append('abbrev Obs := Int × Option Int × Option Int × List Icon × Nat × Nat × Nat × List (Nat × Nat) × Bool × Bool\n')
-    out.append('abbrev Scenario := String × List Packet × Option String × List Obs\n\n')
+    out.append('abbrev Obs := Int × Option Int × Option Int × List Icon × Nat × Nat × Nat × List (Nat × Nat × Nat) × Bool × Bool\n')
+    out.append('abbrev Scenario := String × List (Int × Nat × Nat) × List Packet × Option String × List Obs\n\n')
     out.append('def freshMap : Obs := %s\n\n' % _obs(5, fresh))
     rows = []
-    for title, hist in _scenarios(MP, ctx):
-        ms = MP.MapSet()
+    for title, init, hist in _scenarios(MP, ctx):
+        ms = MP.MapSet(*[MP.Map(i, width=w, height=h) for i, w, h in init])
         raised = None
         for p in hist:
             try:
@@ -158,8 +182,9 @@ def generate():
             except Exception as e:      # the history ends at the first exception
                 raised = type(e).__name__
                 break
-        rows.append('  (%s,\n    [%s],\n    %s,\n    [%s])' % (
-            _lean_str(title), ',\n     '.join(_packet(p) for p in hist), _opt(raised, _lean_str),
+        rows.append('  (%s,\n    [%s],\n    [%s],\n    %s,\n    [%s])' % (
+            _lean_str(title), ', '.join('(%s, %d, %d)' % (_int(i), w, h) for i, w, h in init),
+            ',\n     '.join(_packet(p) for p in hist), _opt(raised, _lean_str),
             ',\n     '.join(_obs(k, m) for k, m in ms.maps_by_id.items())))
     out.append('def scenarios : List Scenario := [\n%s\n]\n\n' % ',\n'.join(rows))
     out.append('end PyCraft.Gen.C20Maps\n')
